@@ -385,7 +385,20 @@ def rule_postlex_block(ctx: RuleContext, p: Program, rid: str) -> None:
                 if fname in ('lark.Token', 'Token') and len(e.args) >= 2:
                     a = [self.expr(x, env) for x in e.args]
                     return possem.Obj('LarkToken', {'type': a[0], 'value': a[1]}, f'{a[0]}')
+                # a helper of the class itself (method, static or class method)
+                if isinstance(e.func, ast.Attribute) and isinstance(e.func.value, ast.Name) and (e.func.value.id in ('cls', cls.name) or
+                                                                                                 isinstance(env.get(e.func.value.id), possem.Obj) and env[e.func.value.id].cls == 'PostLex'):
+                    h = cls.lookup(e.func.attr)
+                    if isinstance(h, FuncInfo):
+                        a = [self.expr(x, env) for x in e.args]
+                        kw = {k.arg: self.expr(k.value, env) for k in e.keywords if k.arg}
+                        recv = env.get(e.func.value.id)
+                        if h.kind == 'staticmethod':
+                            return self.call_function(h, a, kw)
+                        return self.call_function(h, [recv if isinstance(recv, possem.Obj) else me_obj[0]] + a, kw)
             return super().expr(e, env)
+
+    me_obj: list = [None]
 
     def line(nl: bool, ind: bool, com: bool) -> str:
         return ('\n' if nl else '') + ('  ' if ind else '') + ('; c' if com else '')
@@ -402,6 +415,7 @@ def rule_postlex_block(ctx: RuleContext, p: Program, rid: str) -> None:
                     if ca and not com:
                         stream.append(possem.Obj('LarkToken', {'type': 'ACCOUNT', 'value': 'Assets:A'}, 'content'))
                 me = possem.Obj('PostLex', dict(consts), 'postlex')
+                me_obj[0] = me
                 it = Interp(ts, [], module=m)
                 n += 1
                 try:
